@@ -11,7 +11,7 @@ use vcore::{prop_search, Outcome, Run, Search};
 use wire::*;
 use wtransport::Connection;
 
-const RULE: &str = "case = runtime flavour x role of the wtransport endpoint x an ordered script of 1..6 stalled streams (uni/bidi; stall position: no byte = implicit open, partial preamble, complete preamble then silence, data that the application accepts but never reads, a complete GREASE frame then silence / GREASE frame + partial preamble on a bidi stream, the type varint without the session id on a uni stream) interleaved with 1..8 healthy streams (preamble + tagged payload + FIN) x 0..3 datagrams x final clean close (close capsule or QUIC application close with generated code/reason sent by the raw peer, or Connection::close(code, reason) by the application, or the application dropping every handle and stream it holds); plus a public-API variant (wtransport<->wtransport, an OpeningBiStream/OpeningUniStream held un-awaited). Oracle: an application that keeps accepting receives every healthy stream with its bytes, at least one datagram, and finally the exact close value, each within the bound; after a local close the peer sees exactly (code, reason), after dropping everything the peer sees the connection closed within the bound. Non-trivial: >= 1 stalled stream opened before >= 1 healthy stream of the same kind; distinct = distinct case";
+const RULE: &str = "case = runtime flavour x role of the wtransport endpoint x an ordered script of 1..6 stalled streams (uni/bidi; stall position: no byte = implicit open, partial preamble, complete preamble then silence, data that the application accepts but never reads, a complete GREASE frame then silence / GREASE frame + partial preamble on a bidi stream, the type varint without the session id on a uni stream) interleaved with 1..8 healthy streams (preamble + tagged payload + FIN) x 0..3 datagrams (re-sent until one arrives) x a backlog of 0 or 2..6 datagrams sent and acknowledged before the stream script while the application is not receiving yet (all of them must be delivered afterwards) x final clean close (close capsule or QUIC application close with generated code/reason sent by the raw peer, or Connection::close(code, reason) by the application, or the application dropping every handle and stream it holds); plus a public-API variant (wtransport<->wtransport, an OpeningBiStream/OpeningUniStream held un-awaited). Oracle: an application that keeps accepting receives every healthy stream with its bytes, at least one datagram, and finally the exact close value, each within the bound; after a local close the peer sees exactly (code, reason), after dropping everything the peer sees the connection closed within the bound. Non-trivial: >= 1 stalled stream opened before >= 1 healthy stream of the same kind; distinct = distinct case";
 
 #[derive(Clone, Debug, Serialize, Deserialize)]
 pub struct Item {
@@ -46,6 +46,12 @@ pub struct Case {
     /// application drops every handle and stream it holds
     #[serde(default)]
     pub ending: u8,
+    /// datagrams of the session sent (and acknowledged by the endpoint's transport) *before* the
+    /// stream script while the application is not yet receiving datagrams; it starts receiving
+    /// only after the script. They fit the transport's receive buffer many times over, so every
+    /// one of them must still be delivered (raw-peer script without relay)
+    #[serde(default)]
+    pub dgram_backlog: u8,
 }
 
 pub fn case_strategy() -> impl Strategy<Value = Case> {
@@ -59,9 +65,9 @@ pub fn case_strategy() -> impl Strategy<Value = Case> {
         prop_oneof![Just(0u32), Just(1), any::<u32>()],
         "[a-zA-Z0-9 ]{0,24}",
         prop_oneof![3 => Just(0u8), 1 => Just(1u8), 1 => Just(2u8)],
-        (any::<bool>(), prop_oneof![3 => Just(0u8), 1 => Just(1u8), 2 => Just(2u8)]),
+        (any::<bool>(), prop_oneof![3 => Just(0u8), 1 => Just(1u8), 2 => Just(2u8)], prop_oneof![2 => Just(0u8), 1 => 2u8..7]),
     )
-        .prop_map(|(flavor, wt_is_server, variant, mut items, datagrams, close_capsule, code, reason, relay, (default_config, ending))| {
+        .prop_map(|(flavor, wt_is_server, variant, mut items, datagrams, close_capsule, code, reason, relay, (default_config, ending, dgram_backlog))| {
             // at least one healthy and one stalled item
             if !items.iter().any(|i| !i.stalled) {
                 items.push(Item { stalled: false, bidi: items[0].bidi, pos: 0 });
@@ -69,7 +75,7 @@ pub fn case_strategy() -> impl Strategy<Value = Case> {
             if !items.iter().any(|i| i.stalled) {
                 items.insert(0, Item { stalled: true, bidi: items[0].bidi, pos: 0 });
             }
-            Case { flavor, wt_is_server, variant, items, datagrams, close_capsule, code, reason, relay, default_config, ending }
+            Case { flavor, wt_is_server, variant, items, datagrams, close_capsule, code, reason, relay, default_config, ending, dgram_backlog }
         })
 }
 
@@ -88,6 +94,10 @@ struct Shared {
     errors: Vec<String>,
     /// tasks of the application that hold accepted streams
     handlers: Vec<tokio::task::AbortHandle>,
+    /// the application does not call receive_datagram before this is set
+    hold_datagrams: bool,
+    /// indices of the backlog datagrams the application received
+    backlog_seen: std::collections::BTreeSet<u8>,
 }
 
 /// The application: keeps accepting, reads every delivered stream in its own task, except
@@ -153,11 +163,19 @@ fn spawn_app(conn: Connection, shared: Arc<Mutex<Shared>>) -> Vec<tokio::task::J
     let c = conn;
     let sh = shared;
     v.push(tokio::spawn(async move {
+        while sh.lock().unwrap().hold_datagrams {
+            tokio::time::sleep(Duration::from_millis(2)).await;
+        }
         loop {
             match c.receive_datagram().await {
                 Ok(d) => {
                     if d.payload().starts_with(b"dgram") {
                         sh.lock().unwrap().datagrams += 1;
+                    }
+                    if let Some(rest) = d.payload().strip_prefix(b"backlog-") {
+                        if let Some(i) = rest.first() {
+                            sh.lock().unwrap().backlog_seen.insert(*i);
+                        }
                     }
                 }
                 Err(e) => {
@@ -178,6 +196,7 @@ async fn exec_async(case: Arc<Case>) -> CaseResult {
     let expect_close;
     let mut app_conn_opt: Option<Connection>;
     let mut ended_locally = false;
+    let mut backlog_ok = false;
     let mut dropped_all = false;
     let _keep: Box<dyn std::any::Any + Send>;
     if case.variant % 2 == 1 {
@@ -300,7 +319,21 @@ async fn exec_async(case: Arc<Case>) -> CaseResult {
             }
         };
         app_conn_opt = Some(conn.clone());
+        let via_relay0 = case.wt_is_server && case.relay % 3 != 0;
+        let backlog = if via_relay0 { 0 } else { case.dgram_backlog };
+        shared.lock().unwrap().hold_datagrams = backlog > 0;
         let _tasks = spawn_app(conn, shared.clone());
+        if backlog > 0 {
+            for i in 0..backlog {
+                let mut p = b"backlog-".to_vec();
+                p.push(i);
+                p.extend_from_slice(b" sent before the stream script");
+                let _ = raw_conn.send_datagram(refcodec::enc_datagram(session, &p).into());
+            }
+            // acknowledged = inside the endpoint's transport receive buffer
+            flush_acked(&raw_conn, Duration::from_millis(300)).await;
+            tokio::time::sleep(Duration::from_millis(10)).await;
+        }
         // the raw peer plays the script in order
         for (k, it) in case.items.iter().enumerate() {
             let preamble = if it.bidi { refcodec::enc_bi_header_wt(session) } else { refcodec::enc_uni_header_wt(session) };
@@ -398,8 +431,24 @@ async fn exec_async(case: Arc<Case>) -> CaseResult {
                 tokio::time::sleep(Duration::from_millis(5)).await;
             }
         });
+        shared.lock().unwrap().hold_datagrams = false;
         if let Some(r) = wait_delivery(&shared, &healthy_idx, case.datagrams).await {
             return r;
+        }
+        if backlog > 0 {
+            let deadline = tokio::time::Instant::now() + Duration::from_secs(4);
+            loop {
+                let seen = shared.lock().unwrap().backlog_seen.len();
+                if seen == backlog as usize {
+                    break;
+                }
+                if tokio::time::Instant::now() >= deadline {
+                    let g = shared.lock().unwrap();
+                    return CaseResult::Timeout(format!("{} datagrams were sent and acknowledged before the stream script, the application then kept calling receive_datagram but obtained only those with indices {:?}", backlog, g.backlog_seen));
+                }
+                tokio::time::sleep(Duration::from_millis(2)).await;
+            }
+            backlog_ok = true;
         }
         // through a lossy relay a CONNECTION_CLOSE packet may simply be lost (it is not
         // retransmitted); the capsule travels on a reliable stream
@@ -500,6 +549,9 @@ async fn exec_async(case: Arc<Case>) -> CaseResult {
     if ended_locally {
         labels.push("ending:local-close");
     }
+    if backlog_ok {
+        labels.push("datagram-backlog-delivered");
+    }
     if dropped_all {
         labels.push("ending:handles-dropped");
     }
@@ -576,7 +628,7 @@ pub fn run(run: &Run) {
         |c| judge(|| exec(c), true, "C07:blocked"),
         |c| serde_json::to_value(c).unwrap(),
     );
-    for l in ["stall:no-byte", "stall:partial-preamble", "stall:complete-preamble", "stall:unread-data", "stall:unawaited-opening", "stall:unread-data-window-full", "window-full+default-config", "relay:loss", "relay:reorder", "stall:after-grease-frame", "stall:type-without-session-id", "ending:local-close", "ending:handles-dropped"] {
+    for l in ["stall:no-byte", "stall:partial-preamble", "stall:complete-preamble", "stall:unread-data", "stall:unawaited-opening", "stall:unread-data-window-full", "window-full+default-config", "relay:loss", "relay:reorder", "stall:after-grease-frame", "stall:type-without-session-id", "ending:local-close", "ending:handles-dropped", "datagram-backlog-delivered"] {
         run.essential(l);
     }
 }
